@@ -4,7 +4,7 @@ import Mimium.Props.C05
 import Mimium.Proofs.CoreSoundMachine
 import Mimium.Proofs.CoreCheckComplete
 import Mimium.Proofs.MirWfFn
-import Mimium.Proofs.UnifyStrict
+import Mimium.Proofs.UnifyStrictStore
 import Mimium.Gen.Unify
 /-!
 # C03 — programs accepted by the type checker run without crashes or memory errors
@@ -470,8 +470,9 @@ its four passes, the union arms with the bindings their failed attempts leave), 
   its element), `argsRecordTuple` (parameters against arguments by position, keys forgotten), `unitTuple0`/`unitRecord0`,
   `anyL/R`, `failureL/R`, `boxedL/R`, `record` (fields on one side only are accepted), `unionL/R/Both`, `argsUnionL`.
   The same holds when the answer is `Err(vec![])` (an error WITHOUT any diagnostic: `unify_vec` on members of both variances).
-* `C03_unify_strict_fragment` — the converse boundary: on types without tuples, records, unions, `Boxed`, `Any`, `Failure` (and a
-  result store whose parents are such types) none of the lenient clauses applies: success implies the textbook statement `SEq`.
+* `C03_unify_strict_fragment` — the converse boundary: on types without tuples, records, unions, `Boxed`, `Any`, `Failure` (the two
+  arguments and the parents of the store the call starts from) none of the lenient clauses applies: success implies the textbook
+  statement `SEq`, and the store stays in the fragment.
 * `C03_unification_functions_pinned` — the bodies of unification.rs are the ones the port was made from (hashes, arm counts).
 NOT proved: completeness (that unifiable types are unified), principality, anything about `typing.rs` (what it asks to be unified). -/
 namespace Mimium.Unify
@@ -485,12 +486,14 @@ theorem C03_unify_sound (g f : Nat) (args : Bool) (σ σ' : Store) (t1 t2 : Ty) 
   refine go_sound g f args σ t1 t2 σ' r hσ h ?_
   rcases hr with ⟨rel, rfl⟩ | rfl <;> rfl
 
-/-- **The converse boundary.**  On the fragment without tuples, records, unions, `Boxed`, `Any`, `Failure` a successful unification
-establishes syntactic equality modulo the bindings — the textbook statement. -/
+/-- **The converse boundary.**  On the fragment without tuples, records, unions, `Boxed`, `Any`, `Failure` (the two types and the
+parents of the store the call starts from) a successful unification establishes syntactic equality modulo the bindings — the
+textbook statement — and the store it leaves is again in the fragment. -/
 theorem C03_unify_strict_fragment (g f : Nat) (args : Bool) (σ σ' : Store) (t1 t2 : Ty) (rel : Rel)
     (hσ : Occurs.Acyclic (absS σ)) (h : go g f args σ t1 t2 = some (σ', .ok rel))
-    (h1 : strict t1 = true) (h2 : strict t2 = true) (hS : StrictStore σ') : SEq σ' t1 t2 :=
-  len_strict hS (C03_unify_sound g f args σ σ' t1 t2 (.ok rel) hσ h (.inl ⟨rel, rfl⟩)) h1 h2
+    (h1 : strict t1 = true) (h2 : strict t2 = true) (hS : StrictStore σ) : SEq σ' t1 t2 ∧ StrictStore σ' :=
+  have hS' := go_strict g f args σ t1 t2 hS h1 h2 σ' _ h
+  ⟨len_strict hS' (C03_unify_sound g f args σ σ' t1 t2 (.ok rel) hσ h (.inl ⟨rel, rfl⟩)) h1 h2, hS'⟩
 
 /-- obligation: every function of `typing/unification.rs` (test and hook modules aside) has the text `Model/Unify.lean` was ported
 from, and the two `match` tables have the arms the port has (12 and 26) -/
